@@ -237,7 +237,7 @@ func allWindows(n int, f func(from, to int, circular bool)) {
 		}
 	}
 	for from := 0; from < 2*n; from++ {
-		for to := 0; to <= 2*n; to++ {
+		for to := 0; to <= 3*n; to++ {
 			if _, ok := ref.WindowIndex(n, from, to, true); ok {
 				f(from, to, true)
 			}
